@@ -65,12 +65,13 @@ class Tr:
 class Scope:
     n = 0
 
-    def __init__(self, fn, bind, ret_target, depth):
+    def __init__(self, fn, bind, ret_target, depth, pair_helper=None):
         Scope.n += 1
         self.uid = Scope.n
         self.fn = fn
         self.bind = bind            # callee name -> caller var key
         self.ret_target = ret_target  # caller var key (or None)
+        self.ret_flag = None        # (caller scope, flag name) when the caller does `handle, flag = helper(..)`
         self.depth = depth
         # names that are only ever assigned the constants True/False -> flags
         assigned = {}
@@ -86,6 +87,13 @@ class Scope:
                     if isinstance(t, ast.Name):
                         assigned.setdefault(t.id, []).append(False)
             elif isinstance(n, ast.Assign):
+                t0 = n.targets[0]
+                if (pair_helper is not None and len(n.targets) == 1 and isinstance(t0, ast.Tuple) and len(t0.elts) == 2
+                        and all(isinstance(x, ast.Name) for x in t0.elts) and isinstance(n.value, ast.Call) and pair_helper(n.value)):
+                    # `handle, opened = helper(..)` where every return of the helper is `(<handle>, True/False)`: `opened` is a flag
+                    assigned.setdefault(t0.elts[0].id, []).append(False)
+                    assigned.setdefault(t0.elts[1].id, []).append(True)
+                    continue
                 for t in n.targets:
                     for x in ast.walk(t):
                         if isinstance(x, ast.Name):
@@ -193,6 +201,15 @@ class Gen:
                             return n
         return None
 
+    def pair_helper(self, call):
+        """is `call` an opening helper all of whose returns are 2-tuples ending in a bool constant?"""
+        fn = self.opening_helper(call)
+        if fn is None:
+            return False
+        rets = [n for n in ast.walk(fn) if isinstance(n, ast.Return)]
+        return bool(rets) and all(isinstance(r.value, ast.Tuple) and len(r.value.elts) == 2 and isinstance(r.value.elts[1], ast.Constant)
+                                  and isinstance(r.value.elts[1].value, bool) for r in rets)
+
     def handle_target(self, scope, t):
         if isinstance(t, ast.Name):
             return t.id
@@ -227,7 +244,8 @@ class Gen:
                 if kw.arg and isinstance(kw.value, ast.Name):
                     bind[kw.arg] = scope.bind.get(kw.value.id, (scope.uid, kw.value.id))
             rt = scope.bind.get(target, (scope.uid, target)) if target else None
-            inner = Scope(fn, bind, rt, scope.depth + 1)
+            inner = Scope(fn, bind, rt, scope.depth + 1, self.pair_helper)
+            inner.ret_flag = getattr(scope, 'pending_flag', None)
             return "(.scope %s)" % self.block(inner, fn.body)
         if nm.endswith(".close") and isinstance(call.func, ast.Attribute) and isinstance(call.func.value, ast.Name):
             return "(.close %d)" % self.tr.var(scope, call.func.value.id)
@@ -268,7 +286,12 @@ class Gen:
             if isinstance(t, ast.Name) and t.id in scope.flagnames and isinstance(s.value, ast.Constant):
                 return "(.setFlag %d %s)" % (self.tr.flag(scope, t.id), "true" if s.value.value else "false")
             tgt = self.handle_target(scope, t) if isinstance(s.value, ast.Call) else None
+            scope.pending_flag = None
+            if (isinstance(t, ast.Tuple) and len(t.elts) == 2 and isinstance(t.elts[1], ast.Name) and t.elts[1].id in scope.flagnames
+                    and isinstance(s.value, ast.Call) and self.pair_helper(s.value)):
+                scope.pending_flag = (scope, t.elts[1].id)
             eff = self.expr_effects(scope, s.value, tgt)
+            scope.pending_flag = None
             if any(risky(x) for x in s.targets if not isinstance(x, (ast.Name, ast.Tuple))):
                 eff.append(".mayRaise")
             return seq(eff)
@@ -283,7 +306,11 @@ class Gen:
             v = s.value
             if v is not None:
                 first = v.elts[0] if isinstance(v, ast.Tuple) and v.elts else v
-                if isinstance(first, ast.Call):
+                if isinstance(first, ast.Call) and callname(first) in OPEN_CALLS and scope.ret_target is not None:
+                    # `return open(..)`: the handle is born in the caller's variable
+                    eff += [x for a in list(first.args) + [k.value for k in first.keywords] for x in self.expr_effects(scope, a)]
+                    eff.append("(.openV %d)" % self.tr.vars.setdefault(scope.ret_target, len(self.tr.vars)))
+                elif isinstance(first, ast.Call):
                     eff += self.expr_effects(scope, first, None)
                 else:
                     eff += self.expr_effects(scope, v)
@@ -292,6 +319,11 @@ class Gen:
                     dst = self.tr.vars.setdefault(scope.ret_target, len(self.tr.vars))
                     if src != dst:
                         eff.append("(.move %d %d)" % (dst, src))
+                if scope.ret_flag is not None:
+                    if not (isinstance(v, ast.Tuple) and len(v.elts) == 2 and isinstance(v.elts[1], ast.Constant) and isinstance(v.elts[1].value, bool)):
+                        raise Unsupported("helper returns something else than (handle, True/False)")
+                    cs, fname = scope.ret_flag
+                    eff.append("(.setFlag %d %s)" % (self.tr.flag(cs, fname), "true" if v.elts[1].value else "false"))
             return seq(eff + [".ret"])
         if isinstance(s, ast.Raise):
             return seq((self.expr_effects(scope, s.exc) if s.exc is not None else []) + [".raise"])
@@ -340,7 +372,7 @@ class Gen:
                 for kw in ce.keywords:
                     if kw.arg and isinstance(kw.value, ast.Name):
                         bind[kw.arg] = scope.bind.get(kw.value.id, (scope.uid, kw.value.id))
-                inner = Scope(fn, bind, None, scope.depth + 1)
+                inner = Scope(fn, bind, None, scope.depth + 1, self.pair_helper)
                 inner.yield_body = body
                 ov = s.items[0].optional_vars
                 inner.yield_target = scope.bind.get(ov.id, (scope.uid, ov.id)) if isinstance(ov, ast.Name) else None
@@ -387,7 +419,7 @@ class Gen:
 
     def program(self, mod, fname, params_caller_owned=()):
         fn = self.tr.find(mod, fname)
-        scope = Scope(fn, {}, None, 0)
+        scope = Scope(fn, {}, None, 0, self.pair_helper)
         for p in params_caller_owned:
             self.tr.var(scope, p)
         return self.block(scope, fn.body)
